@@ -5,6 +5,7 @@ use crate::gen::{DataClass, Mat};
 use crate::oracle::*;
 use linfa::dataset::DatasetBase;
 use linfa::traits::Transformer;
+use linfa::Float;
 use linfa_kernel::{Inner, Kernel, KernelBase, KernelInner, KernelMethod, KernelParams, KernelType};
 use linfa_nn::CommonNearestNeighbour;
 use ndarray::{Array1, Array2};
@@ -27,19 +28,44 @@ pub struct KCase {
     pub rhs_seed: u64,
     /// which `transform` overload builds the kernels
     pub path: u8,
+    /// the records handed to linfa are `x * scale + offset` (offset per feature, missing entries = 0)
+    #[serde(default)]
+    pub offset: Vec<f64>,
+    #[serde(default = "one")]
+    pub scale: f64,
+    /// build `Kernel<f32>` (records and kernel parameters rounded to f32 first)
+    #[serde(default)]
+    pub single: bool,
 }
 
-pub fn to_arr(x: &Mat) -> Array2<f64> {
+fn one() -> f64 {
+    1.0
+}
+
+pub fn to_arr<F: Float>(x: &Mat) -> Array2<F> {
     let n = x.len();
     let p = x.first().map(|r| r.len()).unwrap_or(0);
-    Array2::from_shape_fn((n, p), |(i, j)| x[i][j])
+    Array2::from_shape_fn((n, p), |(i, j)| F::cast(x[i][j]))
 }
 
-pub fn to_method(m: &KM) -> KernelMethod<f64> {
+fn f<F: Float>(v: F) -> f64 {
+    num_traits::ToPrimitive::to_f64(&v).unwrap_or(f64::NAN)
+}
+
+pub fn to_method<F: Float>(m: &KM) -> KernelMethod<F> {
     match m {
         KM::Linear => KernelMethod::Linear,
-        KM::Gaussian(e) => KernelMethod::Gaussian(*e),
-        KM::Polynomial(c, d) => KernelMethod::Polynomial(*c, *d),
+        KM::Gaussian(e) => KernelMethod::Gaussian(F::cast(*e)),
+        KM::Polynomial(c, d) => KernelMethod::Polynomial(F::cast(*c), F::cast(*d)),
+    }
+}
+
+/// the kernel method with its parameters rounded to the element type (what linfa really receives)
+fn rounded_method<F: Float>(m: &KM) -> KM {
+    match m {
+        KM::Linear => KM::Linear,
+        KM::Gaussian(e) => KM::Gaussian(f(F::cast(*e))),
+        KM::Polynomial(c, d) => KM::Polynomial(f(F::cast(*c)), f(F::cast(*d))),
     }
 }
 
@@ -54,14 +80,14 @@ pub fn nn_name(nn: &CommonNearestNeighbour) -> &'static str {
 
 /// Build a kernel through one of the public construction paths. Returns the kernel and whether the
 /// path preserved the targets it was given (true when the path carries no targets).
-pub fn build(
-    x: &Array2<f64>,
+pub fn build<F: Float>(
+    x: &Array2<F>,
     method: &KM,
     kind: KernelType,
     nn: CommonNearestNeighbour,
     path: u8,
-) -> (Kernel<f64>, bool) {
-    let params: KernelParams<f64, CommonNearestNeighbour> =
+) -> (Kernel<F>, bool) {
+    let params: KernelParams<F, CommonNearestNeighbour> =
         Kernel::params_with_nn(nn).kind(kind).method(to_method(method));
     let n = x.nrows();
     match path % 6 {
@@ -74,7 +100,7 @@ pub fn build(
         3 => {
             let targets = Array1::from_shape_fn(n, |i| 7 * i + 1);
             let ds = DatasetBase::new(x.clone(), targets.clone());
-            let out: DatasetBase<Kernel<f64>, Array1<usize>> = params.transform(ds);
+            let out: DatasetBase<Kernel<F>, Array1<usize>> = params.transform(ds);
             let ok = out.targets == targets;
             (out.records, ok)
         }
@@ -90,13 +116,13 @@ pub fn build(
 }
 
 /// Densified copy of the kernel's inner matrix; for the sparse variant also the stored pattern.
-pub fn densify(k: &Kernel<f64>, n: usize) -> Result<(Mat, Option<Vec<Vec<bool>>>), String> {
+pub fn densify<F: Float>(k: &Kernel<F>, n: usize) -> Result<(Mat, Option<Vec<Vec<bool>>>), String> {
     match &k.inner {
         KernelInner::Dense(a) => {
             if a.nrows() != n || a.ncols() != n {
                 return Err(format!("dense inner has shape {:?} for {n} records", a.shape()));
             }
-            Ok(((0..n).map(|i| (0..n).map(|j| a[(i, j)]).collect()).collect(), None))
+            Ok(((0..n).map(|i| (0..n).map(|j| f(a[(i, j)])).collect()).collect(), None))
         }
         KernelInner::Sparse(s) => {
             if s.rows() != n || s.cols() != n {
@@ -112,60 +138,58 @@ pub fn densify(k: &Kernel<f64>, n: usize) -> Result<(Mat, Option<Vec<Vec<bool>>>
                     return Err(format!("entry ({r},{c}) stored twice"));
                 }
                 pat[r][c] = true;
-                m[r][c] = *v;
+                m[r][c] = f(*v);
             }
             Ok((m, Some(pat)))
         }
     }
 }
 
-fn rhs_matrix(n: usize, cols: usize, seed: u64) -> Array2<f64> {
+fn rhs_matrix<F: Float>(n: usize, cols: usize, seed: u64) -> Array2<F> {
     let mut r = SplitMix(seed);
     Array2::from_shape_fn((n, cols), |_| {
         let v = r.below(9) as f64 - 4.0;
-        if r.below(4) == 0 {
-            v + 0.5
-        } else {
-            v
-        }
+        F::cast(if r.below(4) == 0 { v + 0.5 } else { v })
     })
 }
 
 /// size / sum / column / diagonal / to_upper_triangle / dot against the densified matrix `m`
-pub fn check_ops<K1: Inner<Elem = f64>, K2: Inner<Elem = f64>>(
+pub fn check_ops<F: Float, K1: Inner<Elem = F>, K2: Inner<Elem = F>>(
     tag: &str,
     k: &KernelBase<K1, K2>,
     m: &Mat,
-    rhs: &Array2<f64>,
+    rhs: &Array2<F>,
+    prec: Prec,
     obs: &mut Obs,
 ) {
     let n = m.len();
-    let sum_tol = (TOL_ULPS + 2.0 * n as f64) * EPS;
+    let sum_tol = (TOL_ULPS + 2.0 * n as f64) * prec.eps;
+    let tiny = prec.tiny;
     if let Some(s) = obs.call(&format!("{tag}:size"), || k.size()) {
         obs.ensure(s == n, &format!("{tag}:size"), || format!("size() = {s} for a {n}x{n} kernel matrix"));
     }
-    if let Some(s) = obs.call(&format!("{tag}:sum"), || k.sum().to_vec()) {
+    if let Some(s) = obs.call(&format!("{tag}:sum"), || k.sum().iter().map(|v| f(*v)).collect::<Vec<f64>>()) {
         if obs.ensure(s.len() == n, &format!("{tag}:sum-length"), || format!("sum() has length {} for n = {n}", s.len())) {
             for i in 0..n {
                 let want: f64 = m[i].iter().sum();
                 let scale: f64 = m[i].iter().map(|v| v.abs()).sum();
-                obs.ensure((s[i] - want).abs() <= sum_tol * scale + TINY, &format!("{tag}:sum"), || {
+                obs.ensure((s[i] - want).abs() <= sum_tol * scale + tiny, &format!("{tag}:sum"), || {
                     format!("sum()[{i}] = {}, row {i} of the kernel matrix sums to {want}", s[i])
                 });
             }
         }
     }
     for i in 0..n {
-        if let Some(c) = obs.call(&format!("{tag}:column"), || k.column(i)) {
+        if let Some(c) = obs.call(&format!("{tag}:column"), || k.column(i).into_iter().map(f).collect::<Vec<f64>>()) {
             let want: Vec<f64> = (0..n).map(|r| m[r][i]).collect();
             obs.ensure(c == want, &format!("{tag}:column"), || format!("column({i}) = {:?}, matrix column is {:?}", c, want));
         }
     }
-    if let Some(d) = obs.call(&format!("{tag}:diagonal"), || k.diagonal().to_vec()) {
+    if let Some(d) = obs.call(&format!("{tag}:diagonal"), || k.diagonal().iter().map(|v| f(*v)).collect::<Vec<f64>>()) {
         let want: Vec<f64> = (0..n).map(|i| m[i][i]).collect();
         obs.ensure(d == want, &format!("{tag}:diagonal"), || format!("diagonal() = {:?}, matrix diagonal is {:?}", d, want));
     }
-    if let Some(u) = obs.call(&format!("{tag}:upper"), || k.to_upper_triangle()) {
+    if let Some(u) = obs.call(&format!("{tag}:upper"), || k.to_upper_triangle().into_iter().map(f).collect::<Vec<f64>>()) {
         let mut want = vec![];
         for i in 0..n {
             for j in i + 1..n {
@@ -185,11 +209,12 @@ pub fn check_ops<K1: Inner<Elem = f64>, K2: Inner<Elem = f64>>(
                     let mut want = 0.0;
                     let mut scale = 0.0;
                     for l in 0..n {
-                        want += m[i][l] * rhs[(l, c)];
-                        scale += (m[i][l] * rhs[(l, c)]).abs();
+                        want += m[i][l] * f(rhs[(l, c)]);
+                        scale += (m[i][l] * f(rhs[(l, c)])).abs();
                     }
-                    obs.ensure((p[(i, c)] - want).abs() <= sum_tol * scale + TINY, &format!("{tag}:dot"), || {
-                        format!("dot()[{i},{c}] = {}, matrix product gives {want}", p[(i, c)])
+                    let got = f(p[(i, c)]);
+                    obs.ensure((got - want).abs() <= sum_tol * scale + tiny, &format!("{tag}:dot"), || {
+                        format!("dot()[{i},{c}] = {got}, matrix product gives {want}")
                     });
                 }
             }
@@ -211,14 +236,52 @@ fn class_labels(c: &KCase, obs: &mut Obs) {
     });
 }
 
+/// the record matrix handed to linfa, in f64 (already rounded to f32 when the case is single precision)
+pub fn actual_records(c: &KCase) -> Mat {
+    c.x.iter()
+        .map(|row| {
+            row.iter()
+                .enumerate()
+                .map(|(j, v)| {
+                    let r = v * c.scale + c.offset.get(j).copied().unwrap_or(0.0);
+                    if c.single {
+                        r as f32 as f64
+                    } else {
+                        r
+                    }
+                })
+                .collect()
+        })
+        .collect()
+}
+
 pub fn check_kernel(c: &KCase, obs: &mut Obs) {
+    if c.single {
+        obs.class("element_f32");
+        check_kernel_t::<f32>(c, F32, obs)
+    } else {
+        obs.class("element_f64");
+        check_kernel_t::<f64>(c, F64, obs)
+    }
+}
+
+fn check_kernel_t<F: Float>(c: &KCase, prec: Prec, obs: &mut Obs) {
     let n = c.x.len();
-    if n >= 1 && (c.x.iter().any(|r| r.len() != c.x[0].len()) || c.x[0].is_empty()) {
+    if n >= 1 && (c.x.iter().any(|r| r.len() != c.x[0].len()) || c.x[0].is_empty()) || !(c.scale.is_finite() && c.scale > 0.0) {
         obs.skip("malformed_case");
         return;
     }
     class_labels(c, obs);
-    let x = to_arr(&c.x);
+    let recs = actual_records(c);
+    let max_off = c.offset.iter().fold(0.0f64, |a, b| a.max(b.abs()));
+    obs.class_if(max_off == 0.0, "offset_none");
+    obs.class_if(max_off > 0.0 && max_off < 1e5, "offset_1e3");
+    obs.class_if(max_off >= 1e5 && max_off < 1e7, "offset_1e6");
+    obs.class_if(max_off >= 1e7, "offset_1e8");
+    obs.class_if(c.offset.windows(2).any(|w| w[0] != w[1]), "offset_differs_per_feature");
+    obs.class_if(c.scale != 1.0, "spacing_scaled");
+    let method = rounded_method::<F>(&c.method);
+    let x: Array2<F> = to_arr(&recs);
     obs.class_if(n == 0, "n_eq_0");
     obs.class_if(n == 1, "n_eq_1");
     obs.class_if(n == 2, "n_eq_2");
@@ -226,20 +289,25 @@ pub fn check_kernel(c: &KCase, obs: &mut Obs) {
     let k = if n >= 2 { 1 + idx(c.k, n - 1) } else { 0 };
     obs.class_if(k == 1, "k_eq_1");
     obs.class_if(n >= 2 && k == n - 1, "k_eq_n_minus_1");
-    let rhs = rhs_matrix(n, c.rhs_cols.clamp(1, 3) as usize, c.rhs_seed);
+    let rhs: Array2<F> = rhs_matrix(n, c.rhs_cols.clamp(1, 3) as usize, c.rhs_seed);
 
-    // reference kernel matrix
+    // reference kernel matrix (f64 arithmetic on the exact element values, differences first)
     let mut r = vec![vec![0.0; n]; n];
     let mut tol = vec![vec![0.0; n]; n];
     for i in 0..n {
         for j in 0..n {
-            let (v, t) = kernel_ref(&c.method, &c.x[i], &c.x[j]);
+            let (v, t) = kernel_ref(&method, &recs[i], &recs[j], prec);
             r[i][j] = v;
             tol[i][j] = t;
         }
     }
+    let huge = if c.single { 1e34 } else { 1e300 };
+    if r.iter().any(|row| row.iter().any(|v| v.abs() > huge)) {
+        obs.skip("kernel_value_overflows_element_type");
+        return;
+    }
     obs.class_if((0..n).any(|i| (0..n).any(|j| i != j && r[i][j] == 0.0)) && matches!(c.method, KM::Gaussian(_)), "gaussian_underflow_to_zero");
-    if let KM::Polynomial(pc, pd) = &c.method {
+    if let KM::Polynomial(pc, pd) = &method {
         let frac = !is_small_integer(*pd);
         obs.class_if(frac, "poly_fractional_degree");
         obs.class_if(!frac, "poly_integral_degree");
@@ -250,23 +318,24 @@ pub fn check_kernel(c: &KCase, obs: &mut Obs) {
         let mut neg_base = false;
         for i in 0..n {
             for j in 0..n {
-                let b: f64 = c.x[i].iter().zip(&c.x[j]).map(|(a, b)| a * b).sum::<f64>() + pc;
+                let b: f64 = recs[i].iter().zip(&recs[j]).map(|(a, b)| a * b).sum::<f64>() + pc;
                 zero_base |= b == 0.0;
                 neg_base |= b < 0.0;
             }
         }
         obs.class_if(zero_base, "poly_zero_base");
         obs.class_if(neg_base, "poly_negative_base");
-        if frac && (*pd < 0.0 || *pc < 0.0 || c.x.iter().any(|r| r.iter().any(|v| *v < 0.0)) || r.iter().any(|row| row.iter().any(|v| v.is_nan()))) {
+        if frac && (*pd < 0.0 || *pc < 0.0 || recs.iter().any(|r| r.iter().any(|v| *v < 0.0)) || r.iter().any(|row| row.iter().any(|v| v.is_nan()))) {
             // (negative base)^(fractional degree) is NaN by definition: kept out of the generator
             obs.skip("fractional_degree_outside_domain");
             return;
         }
     }
+    let psd_tol = PSD_TOL_PER_N.max(TOL_ULPS * prec.eps) * n as f64;
 
     // ---------------------------------------------------------------- dense
     let mut dense_m: Option<Mat> = None;
-    if let Some((kd, targets_ok)) = obs.call("build-dense", || build(&x, &c.method, KernelType::Dense, CommonNearestNeighbour::KdTree, c.path)) {
+    if let Some((kd, targets_ok)) = obs.call("build-dense", || build::<F>(&x, &method, KernelType::Dense, CommonNearestNeighbour::KdTree, c.path)) {
         obs.ensure(targets_ok, "build:targets-changed", || "the dataset transform did not hand the targets through unchanged".into());
         obs.ensure(matches!(kd.inner, KernelInner::Dense(_)), "dense:wrong-variant", || "KernelType::Dense produced a sparse inner matrix".into());
         match densify(&kd, n) {
@@ -275,7 +344,10 @@ pub fn check_kernel(c: &KCase, obs: &mut Obs) {
                 for i in 0..n {
                     for j in 0..n {
                         obs.ensure((m[i][j] - r[i][j]).abs() <= tol[i][j], "dense:entry", || {
-                            format!("entry ({i},{j}) = {}, kernel function of rows {i},{j} = {} (tolerance {:e})", m[i][j], r[i][j], tol[i][j])
+                            format!(
+                                "entry ({i},{j}) = {}, kernel function of rows {i},{j} = {} (tolerance {:e}); rows {:?} and {:?}",
+                                m[i][j], r[i][j], tol[i][j], recs[i], recs[j]
+                            )
                         });
                         obs.ensure(m[i][j] == m[j][i], "dense:asymmetric", || {
                             format!("entry ({i},{j}) = {} but entry ({j},{i}) = {}", m[i][j], m[j][i])
@@ -284,13 +356,13 @@ pub fn check_kernel(c: &KCase, obs: &mut Obs) {
                 }
                 if matches!(c.method, KM::Gaussian(_)) {
                     for i in 0..n {
-                        obs.ensure((m[i][i] - 1.0).abs() <= TOL_ULPS * EPS, "gaussian:diagonal", || {
+                        obs.ensure((m[i][i] - 1.0).abs() <= TOL_ULPS * prec.eps, "gaussian:diagonal", || {
                             format!("Gaussian kernel diagonal entry {i} = {}", m[i][i])
                         });
                     }
                     let (vals, _) = vengine::num::jacobi_eigh(&m);
                     let lo = vals.iter().copied().fold(f64::INFINITY, f64::min);
-                    obs.ensure(lo >= -PSD_TOL_PER_N * n as f64, "gaussian:not-psd", || {
+                    obs.ensure(lo >= -psd_tol, "gaussian:not-psd", || {
                         format!("smallest eigenvalue of the Gaussian kernel matrix is {lo}")
                     });
                     // a few quadratic forms as a second witness
@@ -305,14 +377,14 @@ pub fn check_kernel(c: &KCase, obs: &mut Obs) {
                                 sc += (v[i] * m[i][j] * v[j]).abs();
                             }
                         }
-                        obs.ensure(q >= -(PSD_TOL_PER_N * n as f64) * sc.max(1.0), "gaussian:not-psd", || {
+                        obs.ensure(q >= -psd_tol * sc.max(1.0), "gaussian:not-psd", || {
                             format!("quadratic form v'Kv = {q} for v = {:?}", v)
                         });
                     }
                 }
-                check_ops("dense", &kd, &m, &rhs, obs);
+                check_ops("dense", &kd, &m, &rhs, prec, obs);
                 let view = kd.view();
-                check_ops("dense_view", &view, &m, &rhs, obs);
+                check_ops("dense_view", &view, &m, &rhs, prec, obs);
                 if let Some(back) = obs.call("dense:to_owned", || view.to_owned()) {
                     obs.ensure(back == kd, "dense:view-roundtrip", || "kernel.view().to_owned() differs from the kernel".into());
                 }
@@ -325,14 +397,16 @@ pub fn check_kernel(c: &KCase, obs: &mut Obs) {
     if n < 2 {
         return;
     }
-    let (d2, dk) = knn_radii(&c.x, k);
+    // neighbour structure from exact differences of the records (never from their norms)
+    let knn = Knn::new(&recs, k, prec);
+    let (d2, dk) = knn_radii(&recs, k);
     let mut asym = false;
     let mut tie = false;
     for i in 0..n {
         for j in 0..n {
             if i != j {
-                asym |= surely_neighbour(&d2, k, i, j) && !possibly_neighbour(&d2, k, j, i);
-                tie |= must_pair(&d2, k, i, j) != may_pair(&d2, k, i, j);
+                asym |= knn.surely_neighbour(i, j) && !knn.possibly_neighbour(j, i);
+                tie |= knn.must_pair(i, j) != knn.may_pair(i, j);
             }
         }
     }
@@ -349,7 +423,7 @@ pub fn check_kernel(c: &KCase, obs: &mut Obs) {
     for nn in [CommonNearestNeighbour::LinearSearch, CommonNearestNeighbour::KdTree, CommonNearestNeighbour::BallTree] {
         let name = nn_name(&nn);
         let what = format!("build-sparse:{name}");
-        let Some((ks, targets_ok)) = obs.call(&what, || build(&x, &c.method, KernelType::Sparse(k), nn.clone(), c.path)) else { continue };
+        let Some((ks, targets_ok)) = obs.call(&what, || build::<F>(&x, &method, KernelType::Sparse(k), nn.clone(), c.path)) else { continue };
         obs.ensure(targets_ok, "build:targets-changed", || "the dataset transform did not hand the targets through unchanged".into());
         obs.ensure(matches!(ks.inner, KernelInner::Sparse(_)), "sparse:wrong-variant", || "KernelType::Sparse produced a dense inner matrix".into());
         let (m, pat) = match densify(&ks, n) {
@@ -366,7 +440,7 @@ pub fn check_kernel(c: &KCase, obs: &mut Obs) {
                 obs.ensure(pat[i][j] == pat[j][i], "sparse:pattern-asymmetric", || {
                     format!("[{name}, k={k}] ({i},{j}) stored = {} but ({j},{i}) stored = {}", pat[i][j], pat[j][i])
                 });
-                if must_pair(&d2, k, i, j) {
+                if knn.must_pair(i, j) {
                     obs.ensure(pat[i][j], "sparse:neighbour-pair-missing", || {
                         format!(
                             "[{name}, k={k}] pair ({i},{j}) is not stored although one is among the other's k nearest under every tie-break: d2 = {}, k-th neighbour distances {} (of {i}) and {} (of {j})",
@@ -374,7 +448,7 @@ pub fn check_kernel(c: &KCase, obs: &mut Obs) {
                         )
                     });
                 }
-                if !may_pair(&d2, k, i, j) {
+                if !knn.may_pair(i, j) {
                     obs.ensure(!pat[i][j], "sparse:non-neighbour-pair-stored", || {
                         format!(
                             "[{name}, k={k}] pair ({i},{j}) is stored although d2 = {} exceeds the k-th neighbour distances {} (of {i}) and {} (of {j})",
@@ -384,7 +458,7 @@ pub fn check_kernel(c: &KCase, obs: &mut Obs) {
                 }
                 if pat[i][j] {
                     obs.ensure((m[i][j] - r[i][j]).abs() <= tol[i][j], "sparse:entry", || {
-                        format!("[{name}] stored entry ({i},{j}) = {}, kernel function = {}", m[i][j], r[i][j])
+                        format!("[{name}] stored entry ({i},{j}) = {}, kernel function = {} (tolerance {:e})", m[i][j], r[i][j], tol[i][j])
                     });
                     if let Some(dm) = &dense_m {
                         obs.ensure(m[i][j] == dm[i][j], "sparse:value-differs-from-dense", || {
@@ -395,9 +469,9 @@ pub fn check_kernel(c: &KCase, obs: &mut Obs) {
             }
         }
         let tag = format!("sparse_{name}");
-        check_ops(&tag, &ks, &m, &rhs, obs);
+        check_ops(&tag, &ks, &m, &rhs, prec, obs);
         let view = ks.view();
-        check_ops(&format!("sparse_view_{name}"), &view, &m, &rhs, obs);
+        check_ops(&format!("sparse_view_{name}"), &view, &m, &rhs, prec, obs);
         if let Some(back) = obs.call("sparse:to_owned", || view.to_owned()) {
             obs.ensure(back == ks, "sparse:view-roundtrip", || "kernel.view().to_owned() differs from the kernel".into());
         }
